@@ -61,6 +61,7 @@ let () =
     | "pte" -> Model.run_pte oc
     | "mach" -> Model.run_mach oc
     | "tbl" -> Model.run_tbl oc
+    | "codec" -> Model.run_codec oc
     | _ -> failwith ("unknown engine " ^ engine) in
   let out = Buffer.create 65536 in
   (try
